@@ -145,7 +145,7 @@ class History(object):
     def _emit(self, e):
         e['snaps'] = self._snaps()
         for k, dflt in (('tid', 0), ('ci', 0), ('fi', 0), ('attrs', []), ('ok', True), ('name', ''),
-                        ('val', absval(None)), ('key', []), ('sec', ''), ('o', {'k': [], 's': [], 't': 'none'}),
+                        ('val', absval(None)), ('key', []), ('key2', []), ('sec', ''), ('o', {'k': [], 's': [], 't': 'none'}),
                         ('del', False), ('status', ''), ('bytes', []), ('a', 0), ('b', 0), ('eq', False),
                         ('ne', False), ('samebytes', 'na'), ('same_as', []), ('check_same', False)):
             e.setdefault(k, dflt)
@@ -198,6 +198,24 @@ class History(object):
         self.cat.note(key)
         self.cat.note_json(value)
         return self._emit({'k': 'mut', 'tid': tid, 'ci': ci, 'fi': fi, 'key': cps(key), 'val': jabs(value)})
+
+    def mut2(self, tid, ci, fi, key, key2, value):
+        m = self.container(tid, ci, fi).meta
+        if not isinstance(m.get(key), dict):
+            return None
+        m[key][key2] = value
+        self.cat.note(key2)
+        self.cat.note_json(value)
+        return self._emit({'k': 'mut2', 'tid': tid, 'ci': ci, 'fi': fi, 'key': cps(key), 'key2': cps(key2), 'val': jabs(value)})
+
+    def stats(self, tid):
+        import logging
+        logging.disable(logging.CRITICAL)
+        try:
+            self.trees[tid - 1].generate_stats()
+        finally:
+            logging.disable(logging.NOTSET)
+        return self._emit({'k': 'stats', 'tid': tid})
 
     def opt(self, tid, ci, fi, sec, key, value=None, delete=False):
         c = self.container(tid, ci, fi)
